@@ -5,6 +5,7 @@
 package interp
 
 import (
+	"runtime/debug"
 	"bytes"
 	"fmt"
 	"go/constant"
@@ -124,7 +125,7 @@ func asInt64(x value) int64 {
 	case uintptr:
 		return int64(x)
 	}
-	panic(fmt.Sprintf("cannot convert %T to int64", x))
+	panic(engineAbort{kind: abortUnsupported, msg: fmt.Sprintf("engine: cannot convert %T to int64\n%s", x, debug.Stack())})
 }
 
 // asUint64 converts x, which must be an unsigned integer, to a uint64
@@ -144,7 +145,7 @@ func asUint64(x value) uint64 {
 	case uintptr:
 		return uint64(x)
 	}
-	panic(fmt.Sprintf("cannot convert %T to uint64", x))
+	panic(engineAbort{kind: abortUnsupported, msg: fmt.Sprintf("engine: cannot convert %T to uint64\n%s", x, debug.Stack())})
 }
 
 // asUnsigned returns the value of x, which must be an integer type, as its equivalent unsigned type,
